@@ -131,7 +131,10 @@ pub fn judge(reg: &Registry, flow: &Flow, target_port: u16, quiet: bool) -> Verd
         }
     }
     if !tgt.connected {
-        fail("target-never-dialled".into());
+        // a reset discards what was not yet read: an application that resets may legitimately never reach the target
+        if !matches!(spec.closer, Closer::AppReset(_)) {
+            fail("target-never-dialled".into());
+        }
         return v;
     }
     if tgt.listener.as_deref() != Some(&expected_listener(spec.kind, target_port)) {
